@@ -144,6 +144,24 @@ def clause_of(desc):
         pos = p
     if best is None and clauses:
         best = (0, clauses[0][0], clauses[0][1])
+    if best is None and text.strip():
+        # a continuation block (clauses of an `ensures` opened by the block before it): split at top-level commas
+        parts, depth, cur, start = [], 0, '', 0
+        for k, ch in enumerate(text):
+            if ch in '([{':
+                depth += 1
+            elif ch in ')]}':
+                depth -= 1
+            if ch == ',' and depth == 0:
+                parts.append((start, cur)); cur = ''; start = k + 1
+            else:
+                cur += ch
+        if cur.strip():
+            parts.append((start, cur))
+        parts = [(a, c) for a, c in parts if re.sub(r'//[^\n]*', '', c).strip()]
+        for i, (a, c) in enumerate(parts):
+            if a <= off + 1:
+                best = (i, 'ensures+', c.strip())
     return best
 
 
